@@ -135,7 +135,7 @@ PROPS["C19"] = dict(
 )
 PROPS["C04"] = dict(
     level="other",
-    modules=["contracts.c_taproot", "contracts.c_ssa", "contracts.c_dsa", "contracts.c_curve"],
+    modules=["contracts.c_taproot", "contracts.c_ssa", "contracts.c_dsa", "contracts.c_curve", "contracts.c_protocols"],
     not_decided=["the C arm's results for all inputs: assumed; only the bounded differential below is checked"],
     assumptions=["btclib_secp256k1 (libsecp256k1 bindings) is trusted code outside the Python subset"],
     explanation="Every dual-path API under contract is run on both arms (set_libsecp256k1_serving True/False) over generated inputs (valid and malformed): both must satisfy the same contract and give the same value / the same exception class (arms.differ obligation). Bounded differential, labelled bounded; no proof about the C arm.",
@@ -149,3 +149,20 @@ DEFAULT_CLAIM = {
 NOT_APPLICABLE = {
     "C10": "closure over updater, signer, finalizer, extractor, sighash and the interpreter (>40 functions, dynamic dispatch) plus an unforgeability clause: no contract within reach states it; its single-function facts are claimed under C02, C03, C09, C12, C18",
 }
+
+PROPS["C16"] = dict(
+    level="other",
+    modules=["contracts.c_protocols"],
+    not_decided=["'for no other key / no altered statement' clauses need discrete-log / collision assumptions; ECIES, Pedersen, Borromean, PSBT-level MuSig2: not under contract"],
+    assumptions=["sha256 of hashlib"],
+    explanation="Bounded stand-ins: sidecar drivers run the real functions through one honest protocol run per generated configuration (both arms where dual-path) and check agreement with independent references (BIP340 verification of the MuSig2 aggregate, recomputed keys); not proved.",
+    bounded=[],
+)
+PROPS["C20"] = dict(
+    level="other",
+    modules=["contracts.c_protocols"],
+    not_decided=["thread interleavings (no concurrency reasoning in this family)", "cache transparency of memoised tables"],
+    assumptions=[],
+    explanation="Bounded stand-ins on call sequences: a MuSig2 secret nonce is zeroed by a successful sign and every later sign with it is refused; signer and wallet ledgers are exercised by generated call sequences against a reference ledger; not proved.",
+    bounded=[],
+)
